@@ -11,7 +11,7 @@ from vlib import KESTREL
 PROMPTS = [b"key: ", b"password: ", b"Password: ", b"Key name: "]
 
 
-def _spawn(args, e, controlling):
+def _spawn(args, e, controlling, stdout_path=None, stderr_path=None):
     """controlling: the pseudo-terminal is the child's controlling terminal (so /dev/tty opens: prompt_password_tty).
     Otherwise the child has a session of its own WITHOUT a controlling terminal and the pseudo-terminal only as its
     stdin/stdout/stderr: /dev/tty does not open and ask_pass falls back to prompt_password_stdin."""
@@ -27,6 +27,12 @@ def _spawn(args, e, controlling):
                 os.dup2(slave, fd)
             if slave > 2:
                 os.close(slave)
+            # optionally only stdin stays on the terminal: stdout / stderr go to files (a pipeline, a log)
+            for fd, pth in ((1, stdout_path), (2, stderr_path)):
+                if pth:
+                    f = os.open(pth, os.O_WRONLY | os.O_CREAT | os.O_TRUNC, 0o644)
+                    os.dup2(f, fd)
+                    os.close(f)
             os.execve(KESTREL, [KESTREL] + list(args), e)
         finally:
             os._exit(127)
@@ -34,7 +40,7 @@ def _spawn(args, e, controlling):
     return pid, master
 
 
-def run_tty(args, lines, env=None, timeout=60, interrupt=True, controlling=True):
+def run_tty(args, lines, env=None, timeout=60, interrupt=True, controlling=True, stdout_path=None, stderr_path=None):
     """lines: what to type, one per prompt, in order.  When they run out and a prompt is still showing: Ctrl-C
     (interrupt).  (Ctrl-D is not used: passterm's read_line spins forever on end of input, see DESIGN.md 14.)
     Returns (exit status, transcript bytes, number of prompts answered)."""
@@ -49,7 +55,7 @@ def run_tty(args, lines, env=None, timeout=60, interrupt=True, controlling=True)
             finally:
                 os._exit(127)
     else:
-        pid, fd = _spawn(args, e, False)
+        pid, fd = _spawn(args, e, False, stdout_path, stderr_path)
     out = b""
     answered = 0
     seen = 0          # bytes of `out` already scanned for a prompt
@@ -72,6 +78,17 @@ def run_tty(args, lines, env=None, timeout=60, interrupt=True, controlling=True)
             if not chunk:
                 break
             out += chunk
+        if stdout_path or stderr_path:
+            # prompts do not come over the terminal then: look for them in the redirected streams
+            extra = b""
+            for pth in (stderr_path, stdout_path):
+                try:
+                    with open(pth, "rb") as f_:
+                        extra += f_.read()[-200000:]
+                except OSError:
+                    pass
+            if len(extra) > len(out):
+                out = extra
         # a prompt is pending when the unscanned output ends with one of the prompt endings
         tail = out[seen:]
         if any(tail.rstrip(b"\r\n").endswith(p.rstrip()) or tail.endswith(p) for p in PROMPTS) and tail.strip():
